@@ -9,7 +9,8 @@ RUN   harness/C19_auth        SaltToken
       harness/C19_federation  saltedTokenProvider behind rpc.Conn -> recording HTTP server
       harness/C19_controller  legacy handler stack -> remoteClusterRequest -> saltAuthToken -> proxy.Do
                               -> recording HTTP server (fake api_client_authorizations database)
-      harness/C19_keepstore   remoteProxy.Get -> remoteClient -> recording HTTP server
+      harness/C19_keepstore   remoteProxy.Get -> remoteClient (client built through service discovery on the first
+                              fetch, reused on the second) -> recording API server + keep service of the remote
 JUDGE specs/federation/TokenSaltTrace.tla  (TokenSaltContract)
 
 Second part: ONE request context served at several destinations (remote R1, remote R2, local, fan-out by PDH)
@@ -204,6 +205,8 @@ def run(ctx):
             got_out = [e["r"]]
         else:
             got_out = [form_of(o) for o in e["obs"]]
+            if s["site"] == "keepstore" and got_out == ["dropped"]:
+                got_out = ["refuse"]    # only the token-less service discovery reached the remote
             # an already salted token is its own "salted form"
             got_out = ["same" if g == "both" and tk["c"] in ("saltR", "saltX", "saltH") else g
                        for g, tk in zip(got_out, s["toks"])]
